@@ -265,7 +265,7 @@ def check(run):
                     elif ev["c"].get("df") == 20:
                         other_df20 += 1
                         other_labelled += lab
-    if labelled == 0 or unlabelled == 0:
+    if (labelled == 0 or unlabelled == 0) and not run.violations:      # a rejection already explains it
         raise core.ToolError("DF20/BDS 0,5 labelling: one of the two outcomes was never produced "
                              f"(labelled={labelled}, unlabelled={unlabelled})")
 
